@@ -23,10 +23,20 @@ Outcome per case (real `DASSH_Input` -> `Reactor` -> sweep -> postprocess, as
               a Reactor exists, no temperature array differs from its value
               after construction) and an ERROR record was logged;
   accepted    set up, swept, post-processed; all temperatures finite;
-  unexpected  any other exception type, NaN/inf temperature, HANG.
+  late-exit   dassh's own error exit (SystemExit + message), but after
+              temperatures had been computed;
+  unexpected  any other exception type, NaN/inf temperature, HANG, or an exit
+              without an error message.
 Oracle: `unexpected` is always a violation; a member of an invalid class NAMED
-in the statement must be `rejected`; everything else may be accepted or
-rejected (histogram in the evidence).
+in the statement must be `rejected` (`accepted` -> accepted-invalid,
+`late-exit` -> late-exit-invalid); everything else may be accepted, rejected
+or exit late (histogram in the evidence).  Part `valid`: inputs that are valid
+by construction (design grid) must be `accepted`.
+
+Flat scenario fields for known-finding matching: base, key (path in the
+text), tkey (path in the template, `*` for user-named sections), fault, ffam
+(fault family), kf = "tkey<-fault" (two of them joined by " & " for a double
+fault).
 """
 import copy
 import hashlib
@@ -797,17 +807,6 @@ def mutate(base, muts):
         if not ok:
             return None
     return '\n'.join(lines), files
-
-
-def tkey_for(base_ents, key):
-    if key == 'Power/user_power@csv':
-        return 'Power/user_power@csv'
-    if '#' in key:
-        return 'Assignment/ByPosition#'
-    e = find_entry(base_ents, key)
-    if e['t'] == 'sec':
-        return tkey_of(tpath_of(e['path']))
-    return spec_of(e['path'], e['k'])[2]
 
 
 def single_faults(base, tier):
